@@ -77,8 +77,15 @@ def gen_case(rng, tier, i):
     kind = str(rng.choice(['wavefront', 'wavefront', 'wavefront', 'opd-rms', 'fan', 'vs-field', 'operand']))
     dist = DISTS[int(rng.integers(len(DISTS)))]
     n = int(rng.integers(2, 9)) if dist == 'hexapolar' else int(rng.integers(4, 30))
-    return dict(spec=spec, info=info, kind=kind, dist=dist, n=n, Hy=float(rng.choice([0.0, 0.7, 1.0, rng.uniform(0, 1)])),
+    case = dict(spec=spec, info=info, kind=kind, dist=dist, n=n, Hy=float(rng.choice([0.0, 0.7, 1.0, rng.uniform(0, 1)])),
                 wli=int(rng.integers(len(spec['wavelengths']))), seed=int(rng.integers(1 << 30)))
+    if rng.random() < 0.2 and not info.get('dispersive_image_space'):
+        # the analysed lens is used once (traces, a wavefront), then edited through the public setters; the wavefront must
+        # be that of the edited prescription (the oracle traces a lens built from scratch)
+        ed = L.gen_edits(rng, spec, kinds=('index', 'radius', 'conic'))
+        if ed and float(L.psys(L.apply_edits(None, spec, ed)).power()) > 0:
+            case['edits'] = ed
+    return case
 
 
 def make_dist(name, n, seed):
@@ -158,6 +165,16 @@ def principal(ora, meta, wl):
 def check_case(case, rec):
     spec = case['spec']
     lens = L.build(spec)       # analysed by the library
+    if case.get('edits'):
+        from optiland.wavefront import Wavefront as _WF
+        rec.cls('edited-after-first-use')
+        try:
+            lens.trace_generic(0.0, 0.5, 0.0, 0.5, L.primary_wavelength(spec))
+            lens.paraxial.XPL(); lens.paraxial.EPL()
+            _WF(lens, fields=[(0.0, 0.0)], wavelengths=[L.primary_wavelength(spec)], num_rays=3, distribution='hexapolar')
+        except Exception:
+            pass       # the first use is not judged
+        spec = L.apply_edits(lens, spec, case['edits'])
     lens2 = L.build(spec)      # traced by the oracle
     wl = float(spec['wavelengths'][case['wli']][0])
     kind = case['kind']
